@@ -182,6 +182,89 @@ Theorem C11_fatal_reaches_disk_no_thread :
 Proof. exact (fatal_reaches_disk_ev src_fatal_cfg_nothread (proj1 C11_src_flush_in_every_configuration)). Qed.
 Print Assumptions C11_fatal_reaches_disk_no_thread.
 
+(* ---- several file sinks on ONE file ----
+   Nothing keeps a program from creating two file sinks for the same file name: a sink replaced at run time
+   by a new one for the same file (new one appended, old one removed), a second short-lived Logger object
+   logging to the same file.  [fm] assigns a file to every sink identity; histories are lists of [wevent]
+   (the events above, and [WScratch s msgs]: another Logger object with the file sink [s] logs [msgs] and is
+   destroyed); a sink that leaves the configuration is destroyed, which closes (flushes) its QFile.
+   Full strength: for every assignment of files, every tree, every such history, every buffering policy and
+   fault pattern, at abort every file holds from EVERY QFile ever opened on it exactly the stream of records
+   the unbuffered logger would have written through that sink ([expected_w]: no configuration, policy or
+   flush in it) - each record once per sink that wrote it - and the set of files that belong to the final
+   configuration is the same. *)
+Theorem C11_fatal_reaches_shared_files :
+  forall (pol : policy) (rej : reject) (t : tree) (evs : list wevent) (r : rec) (fm : fmap),
+  (forall f, streams fm f (wrun_fatal src_fatal_cfg pol rej t evs r) = streams fm f (expected_w rej t evs r))
+  /\ live_files fm (wrun_fatal src_fatal_cfg pol rej t evs r) = live_files fm (expected_w rej t evs r).
+Proof. exact (fatal_reaches_shared_files src_fatal_cfg C11_source_configuration_good). Qed.
+Print Assumptions C11_fatal_reaches_shared_files.
+
+Theorem C11_fatal_reaches_shared_files_no_thread :
+  forall (pol : policy) (rej : reject) (t : tree) (evs : list wevent) (r : rec) (fm : fmap),
+  (forall f, streams fm f (wrun_fatal src_fatal_cfg_nothread pol rej t evs r) = streams fm f (expected_w rej t evs r))
+  /\ live_files fm (wrun_fatal src_fatal_cfg_nothread pol rej t evs r) = live_files fm (expected_w rej t evs r).
+Proof. exact (fatal_reaches_shared_files src_fatal_cfg_nothread (proj1 C11_src_flush_in_every_configuration)). Qed.
+Print Assumptions C11_fatal_reaches_shared_files_no_thread.
+
+(* whatever the configuration and whenever the process dies: what a destroyed sink (removed, cleared, the
+   sink of a second logger that went out of scope) had been sent is in its file *)
+Theorem C11_destroyed_sinks_lose_nothing : forall cfg pol rej t evs fm f,
+  map disk (filter (on_file fm f) (snd (wrun cfg pol rej t evs)))
+  = map disk (filter (on_file fm f) (snd (wspec rej t evs))).
+Proof. exact destroyed_sinks_lose_nothing. Qed.
+Print Assumptions C11_destroyed_sinks_lose_nothing.
+
+(* the specification for shared files extends the one above: same tree on histories without a second logger *)
+Theorem C11_shared_file_spec_extends_reconfiguration_spec : forall rej t evs,
+  fst (wspec rej t (map WEv evs)) = spec_run rej t evs.
+Proof. exact wspec_tree. Qed.
+Print Assumptions C11_shared_file_spec_extends_reconfiguration_spec.
+
+(* the boolean oracle the check evaluates on the ids found in files written by several sinks *)
+Theorem C11_oracle_for_shared_files_holds : forall pol rej t evs r fm,
+  prop_c11_w_b fm rej t evs r (fun f => Some (concat (stream_ids fm f (wrun_fatal src_fatal_cfg pol rej t evs r)))) = true.
+Proof. exact (oracle_w_holds src_fatal_cfg C11_source_configuration_good). Qed.
+Print Assumptions C11_oracle_for_shared_files_holds.
+
+(* non-vacuity: format + file sink 0; two messages; a NEW sink 1 for the SAME file is appended; one message
+   (both sinks write it); the old sink is removed (destroyed); one message; a second logger with sink 2 on the
+   same file logs record 1000000 and goes away; one more message; qFatal.  File 0 is made of three streams.
+   Without the flush on fatal the stream of the surviving sink is empty; the destroyed ones are complete. *)
+Example C11_shared_file_nonvacuous :
+  let fm : fmap := fun _ => 0 in
+  let t := TPipe [TOther; TSink (fresh 0 false false)] in
+  let evs := [WEv (EMsg (info 0 11)); WEv (EMsg (info 1 11));
+              WEv (EOp (OAppend [] (TSink (fresh 1 false false)))); WEv (EMsg (info 2 11));
+              WEv (EOp (ORemove [] 1%nat)); WEv (EMsg (info 3 11));
+              WScratch (fresh 2 false false) [info 1000000 11]; WEv (EMsg (info 4 11))] in
+  stream_ids fm 0 (expected_w no_faults t evs (mk 5 14)) = [[0; 1; 2]; [1000000]; [2; 3; 4; 5]]
+  /\ live_files fm (expected_w no_faults t evs (mk 5 14)) = [0]
+  /\ stream_ids fm 0 (wrun_fatal src_fatal_cfg qfile_policy no_faults t evs (mk 5 14)) = [[0; 1; 2]; [1000000]; [2; 3; 4; 5]]
+  /\ stream_ids fm 0 (wrun_fatal src_fatal_cfg_nothread qfile_policy no_faults t evs (mk 5 14)) = [[0; 1; 2]; [1000000]; [2; 3; 4; 5]]
+  /\ stream_ids fm 0 (wrun_fatal (with_pos src_fatal_cfg FNone) qfile_policy no_faults t evs (mk 5 14)) = [[0; 1; 2]; [1000000]; []]
+  /\ (* killed before the fatal message: the destroyed sinks are complete, the live one has nothing on disk *)
+  stream_ids fm 0 (wrun src_fatal_cfg qfile_policy no_faults t evs) = [[0; 1; 2]; [1000000]; []]
+  /\ (* the oracle: the real file (streams in the order the QFiles were flushed) is accepted; a file that lacks what
+        was logged after the old sink went away is not; neither is one with a record twice too often *)
+  prop_c11_w_b fm no_faults t evs (mk 5 14) (fun _ => Some [0; 1; 2; 1000000; 2; 3; 4; 5]) = true
+  /\ prop_c11_w_b fm no_faults t evs (mk 5 14) (fun _ => Some [0; 1; 2; 2; 1000000]) = false
+  /\ prop_c11_w_b fm no_faults t evs (mk 5 14) (fun _ => Some [0; 1; 2; 1000000; 2; 3; 3; 4; 5]) = false
+  /\ prop_c11_w_b fm no_faults t evs (mk 5 14) (fun _ => None) = false.
+Proof. vm_compute. repeat split. Qed.
+
+(* non-vacuity for EMPTY texts: a record is the text plus a newline, so the empty text is a record of one byte
+   ([rlen] = 1) and a text of three blanks one of four; the theorems above quantify over every [rec].  An empty
+   fatal message after an empty and a blank message: all of them are in the file; without the flush on fatal
+   (or with a flush that is skipped for an empty fatal text) the file is empty. *)
+Example C11_empty_texts_nonvacuous :
+  let t := TPipe [TOther; TSink (fresh 0 false false); TPipe [TSink (fresh 1 true false)]] in
+  let msgs := [info 0 11; info 1 1; (Warning, mk 2 4)] in
+  ids_of (survivors (run_fatal src_fatal_cfg qfile_policy no_faults t msgs (mk 3 1))) = [Some [0; 1; 2; 3]; Some [0; 1; 2; 3]]
+  /\ ids_of (expected no_faults t (msgs ++ [(Fatal, mk 3 1)])) = [Some [0; 1; 2; 3]; Some [0; 1; 2; 3]]
+  /\ ids_of (survivors (run_fatal (with_pos src_fatal_cfg FNone) qfile_policy no_faults t msgs (mk 3 1))) = [Some []; Some [0; 1; 2]].
+Proof. vm_compute. repeat split. Qed.
+
 (* non-vacuity of the reconfiguration theorems: format + file sink 0 + a nested pipeline behind a
    warning-and-above filter; one message, flush(), then (A) the file sink is replaced by sink 1 (same
    number of top-level handlers) and (B) sink 2 is added INSIDE the existing nested pipeline; three
